@@ -12,6 +12,8 @@ Definition is_xdigit (c : N) : bool := is_digit c || ((65 <=? c) && (c <=? 70)) 
 Definition xdigit_val (c : N) : N :=
   if is_digit c then c - 48 else if (65 <=? c) && (c <=? 70) then c - 55 else c - 87.
 
+Definition ip6_char (c : N) : bool := is_xdigit c || (c =? 58) || (c =? 46).
+
 Definition hd0 (s : bytes) : N := match s with [] => 0 | c :: _ => c end.
 (** [*p] is NUL or white space *)
 Definition at_end (s : bytes) : bool := match s with [] => true | c :: _ => wspace c end.
@@ -43,9 +45,15 @@ Fixpoint is_prefix (p s : bytes) : bool :=
   end.
 
 Definition mem (c : N) (l : bytes) : bool := existsb (N.eqb c) l.
+(** strcasecmp(a, b) == 0 *)
+Definition ci_eqb (a b : bytes) : bool := bytes_eqb (map to_lower a) (map to_lower b).
 
 Fixpoint last_opt (s : bytes) : option N :=
   match s with [] => None | [c] => Some c | _ :: t => last_opt t end.
+(** the last character is a dot *)
+Definition ends_with_dot (s : bytes) : bool := match rev s with c :: _ => c =? 46 | [] => false end.
+(** the characters of an address literal as spfip4() / spfip6() scan them *)
+Definition ip4_char (c : N) : bool := is_digit c || (c =? 46).
 
 (** part of [s] after its first [c] (strchr(s, c) + 1), None if there is none *)
 Fixpoint after_char (c : N) (s : bytes) : option bytes :=
@@ -66,11 +74,9 @@ Fixpoint digits_val (s : bytes) (acc : N) : N * bytes :=
     else (negative, magnitude, rest). *)
 Definition parse_num (s : bytes) : option (bool * N * bytes) :=
   let s1 := drop_while isspace_c s in
-  let '(neg, s2) := match s1 with
-                    | 45 :: t => (true, t)
-                    | 43 :: t => (false, t)
-                    | _ => (false, s1)
-                    end in
+  let '(neg, s2) := if hd0 s1 =? 45 then (true, tl s1)
+                    else if hd0 s1 =? 43 then (false, tl s1)
+                    else (false, s1) in
   match s2 with
   | c :: _ => if is_digit c then let '(m, r) := digits_val s2 0 in Some (neg, m, r) else None
   | [] => None
